@@ -195,17 +195,23 @@ func (p *Prog) findContract(c *ssa.CallCommon, callee *ssa.Function, fullName st
 }
 
 func newFnGen(p *Prog, fn *ssa.Function, fc *FuncContract, pc *PkgContracts) *FnGen {
-	mode := fc.Mode
-	if mode == "" {
-		mode = "int"
-	}
 	pkgName := ""
 	if fn.Pkg != nil {
 		pkgName = fn.Pkg.Pkg.Name()
 	} else if fn.Parent() != nil && fn.Parent().Pkg != nil {
 		pkgName = fn.Parent().Pkg.Pkg.Name()
 	}
-	return &FnGen{prog: p, fn: fn, fc: fc, pc: pc, mode: mode, fname: pkgName + "." + fc.Name,
+	g := newFnGenRaw(p, fc, pc, pkgName)
+	g.fn = fn
+	return g
+}
+
+func newFnGenRaw(p *Prog, fc *FuncContract, pc *PkgContracts, pkgName string) *FnGen {
+	mode := fc.Mode
+	if mode == "" {
+		mode = "int"
+	}
+	return &FnGen{prog: p, fc: fc, pc: pc, mode: mode, fname: pkgName + "." + fc.Name,
 		declared: map[string]bool{}, famSort: map[string]string{}, famVer: map[string]int{},
 		vals: map[ssa.Value]Val{}, blockR: map[*ssa.BasicBlock]string{}, exit: map[*ssa.BasicBlock]*State{},
 		kindCnt: map[string]int{}, notes: map[string]bool{}, structDT: map[string]string{}, tagIDs: map[string]int{},
@@ -231,5 +237,38 @@ func GenFunc(p *Prog, fn *ssa.Function, fc *FuncContract, pc *PkgContracts) (g *
 		return g, fmt.Errorf("%s: no body", g.fname)
 	}
 	g.run()
+	return g, nil
+}
+
+// GenLemma: a lemma over spec functions only (no code): one obligation.
+func GenLemma(p *Prog, pc *PkgContracts, name string) (g *FnGen, err error) {
+	var lm *Lemma
+	for i := range pc.Lemmas {
+		if pc.Lemmas[i].Name == name {
+			lm = &pc.Lemmas[i]
+		}
+	}
+	if lm == nil {
+		return nil, fmt.Errorf("no lemma %s in %s", name, pc.File)
+	}
+	fc := &FuncContract{PkgPath: pc.PkgPath, Name: "lemma:" + name, Kind: "lemma", Mode: lm.Mode}
+	g = newFnGenRaw(p, fc, pc, pc.PkgPath[strings.LastIndex(pc.PkgPath, "/")+1:])
+	defer func() {
+		if r := recover(); r != nil {
+			if u, ok := r.(UnsupportedErr); ok {
+				err = fmt.Errorf("%s: %s", g.fname, u.Msg)
+				return
+			}
+			panic(r)
+		}
+	}()
+	g.init = &State{h: map[string]string{}}
+	g.famInit("$alloc", "Int")
+	g.cur = g.init.clone()
+	g.curR = "true"
+	g.emitAxioms()
+	env := &Env{g: g, vars: map[string]Val{}, cur: g.cur, old: g.init, pkg: p.typesPkg(pc.PkgPath), pcs: []*PkgContracts{pc}}
+	g.addCover("entry", "entry")
+	g.oblige("lemma", "lemma", env.trBool(lm.E), lm.Src, token.NoPos)
 	return g, nil
 }
